@@ -117,7 +117,191 @@ def nullspace_relations(atoms, samples):
     return rels
 
 
+class ModBasis:
+    """incremental Gaussian elimination modulo q over linear forms known to be zero"""
+
+    def __init__(self, q, order_index):
+        self.q = q
+        self.idx = order_index      # atom -> program-order index (newest pivot preferred)
+        self.piv = {}               # pivot atom -> normalised form (pivot coefficient 1)
+        self.seq = []
+
+    def reduce(self, f):
+        q = self.q
+        cur = _reduce(f, q)
+        # eliminate pivots, newest first (definitions are triangular in program order)
+        while True:
+            cand = [a for a in cur.m if a in self.piv]
+            if not cand:
+                return cur
+            a = max(cand, key=lambda x: self.idx.get(x, -1))
+            k = cur.m[a] % q
+            cur = _reduce(cur - self.piv[a].scale(k), q)
+
+    def add(self, e):
+        f = self.reduce(e)
+        best = None
+        for a, k in f.m.items():
+            if math.gcd(k % self.q, self.q) == 1:
+                if best is None or self.idx.get(a, -1) > self.idx.get(best, -1):
+                    best = a
+        if best is None:
+            return False
+        inv = pow(f.m[best] % self.q, -1, self.q)
+        self.piv[best] = _reduce(f.scale(inv), self.q)
+        self.seq.append(best)
+        return True
+
+
+class Expander:
+    """substitute remainder atoms by their defining forms (recursively)"""
+
+    def __init__(self, enc):
+        self.enc = enc
+        self.memo = {}
+        self.defn = {}
+        for a, d in enc.defs.items():
+            if d[0] == "rem":
+                _, f, w, qa, ql = d
+                self.defn[a] = f - Lin(ql << w, {qa: 1 << w})
+            elif d[0] == "sbbrem":
+                self.defn[a] = d[1] + Lin(0, {d[3]: d[2]})
+
+    def atom(self, a):
+        r = self.memo.get(a)
+        if r is None:
+            d = self.defn.get(a)
+            r = Lin(0, {a: 1}) if d is None else self.form(d)
+            self.memo[a] = r
+        return r
+
+    def form(self, f):
+        if not any(a in self.defn for a in f.m):
+            return f
+        out = Lin(f.c)
+        rest = {}
+        for a, k in f.m.items():
+            if a in self.defn:
+                out = out + self.atom(a).scale(k)
+            else:
+                rest[a] = k
+        return out + Lin(0, rest)
+
+
 def prove_congruence(enc, R, V, q, extra=(), timeout=60, max_lemmas=60, solvers=("z3",),
+                     samples=None):
+    """Show R == V (mod q) under enc's constraints (+extra SMT assertions).
+    Linear algebra modulo q over the encoder's defining equations (expanded)
+    plus solver-proved auxiliary lemmas finds k with R = V + q*k; the solver
+    then confirms that identity from the emitted constraint system."""
+    t0 = time.time()
+    nq = 0
+    xp = Expander(enc)
+    D = xp.form(R - V)
+    zero_forms = []      # expanded lemma forms
+    lemma_raw = []       # as asserted
+    lemma_txt = []
+    extra = list(extra)
+    tried = set()
+    rem_atoms = [a for a in enc.order if a in xp.defn]
+
+    def add_lemma(E, txt):
+        zero_forms.append(xp.form(E))
+        lemma_raw.append(E)
+        extra.append("(= %s 0)" % E.smt())
+        lemma_txt.append(txt)
+
+    for rounds in range(max_lemmas):
+        sol = solve_mod(D, zero_forms, q)
+        if sol is not None:
+            lam, K = sol
+            comb = Lin(0)
+            for j, v in lam.items():
+                if v:
+                    comb = comb + lemma_raw[j].scale(v)
+            goal = "(not (= %s (+ %s %s (* %d %s))))" % (R.smt(), V.smt(), comb.smt(), q, K.smt())
+            v, _, dt, s = _solve(enc, goal, extra, timeout, solvers, logic=None)
+            nq += 1
+            if v == "unsat":
+                return Result("proved", s, time.time() - t0, nq,
+                              {"lemmas": lemma_txt, "witness_atoms": len(K.m)})
+            return Result("unknown", s, time.time() - t0, nq,
+                          {"reason": "final identity not confirmed: " + v, "lemmas": lemma_txt})
+        cur = _residual(D, zero_forms, q)
+        if not cur.m:
+            break
+        progress = False
+        if samples:
+            if rounds == 0:
+                for a in rem_atoms:
+                    if enc.atoms[a][1] == 0:
+                        continue
+                    if all(env[a] == 0 for env in samples):
+                        kk = ("zero", a)
+                        if kk in tried:
+                            continue
+                        tried.add(kk)
+                        v, _, dt, s_ = _solve(enc, "(not (= %s 0))" % a, extra, min(timeout, 20),
+                                              solvers, local=True)
+                        nq += 1
+                        if v == "unsat":
+                            add_lemma(Lin(0, {a: 1}), "%s = 0 (remainder)" % a)
+                            progress = True
+                if progress:
+                    continue
+            ratoms = sorted(cur.m)
+            if len(ratoms) <= 48 and len(samples) > len(ratoms) + 2:
+                for E in nullspace_relations(ratoms, samples):
+                    kk = ("rel", E.key())
+                    if kk in tried or not E.m:
+                        continue
+                    tried.add(kk)
+                    v, _, dt, s_ = _solve(enc, "(not (= %s 0))" % E.smt(), extra, min(timeout, 20),
+                                          solvers, local=True)
+                    nq += 1
+                    if v == "unsat":
+                        add_lemma(E, "%s = 0" % E.smt()[:80])
+                        progress = True
+                        break
+                if progress:
+                    continue
+        for a in sorted(cur.m, key=lambda a: enc.atoms[a][1]):
+            lo, hi = enc.atoms[a]
+            if hi - lo > 8:
+                continue
+            for val in (0, 1):
+                key = ("const", a, val)
+                if key in tried or not (lo <= val <= hi):
+                    continue
+                if samples and any(env[a] != val for env in samples):
+                    continue
+                tried.add(key)
+                v, _, dt, s = _solve(enc, "(not (= %s %d))" % (a, val), extra, min(timeout, 20),
+                                     solvers, local=True)
+                nq += 1
+                if v == "unsat":
+                    add_lemma(Lin(-val, {a: 1}), "%s = %d" % (a, val))
+                    progress = True
+                    break
+            if progress:
+                break
+        if progress:
+            continue
+        break
+    cur = _residual(D, zero_forms, q)
+    if cur.m and len(cur.m) <= 64:
+        v, _, dt, s = _solve(enc, "(not (= (mod %s %d) 0))" % (cur.smt(), q), extra, timeout,
+                             solvers, logic=None)
+        nq += 1
+        if v == "unsat":
+            return Result("proved", s + " (direct residual mod q)", time.time() - t0, nq,
+                          {"lemmas": lemma_txt + ["residual == 0 (mod q) decided directly"]})
+    return Result("unknown", "z3", time.time() - t0, nq,
+                  {"reason": "no congruence witness", "residual": cur, "lemmas": lemma_txt,
+                   "extra": extra})
+
+
+def prove_congruence_old(enc, R, V, q, extra=(), timeout=60, max_lemmas=60, solvers=("z3",),
                      samples=None):
     """Show R == V (mod q) under enc's constraints (+extra SMT assertions).
     Finds k with R = V + q*k as an integer form over the encoder's atoms,
